@@ -309,26 +309,89 @@ Proof.
 Qed.
 
 Definition castable (P : params) (from to : dtype) : Prop := exists s, score P (d_id from) (d_id to) = Some s.
+Definition is_dec (P : params) (d : dtype) : Prop := exists ps, dec_meta P d = Some ps.
 
 (* what one output column of a set operation satisfies *)
 Definition unified (P : params) (l r : dtype) (o : dtype * side) : Prop :=
   match snd o with
   | SNone => fst o = l /\ l = r
-  | SRight => fst o = l /\ castable P r l
-  | SLeft => fst o = r /\ castable P l r
+  | SRight => fst o = l /\ (castable P r l \/ (is_dec P l /\ is_dec P r))
+  | SLeft => fst o = r /\ (castable P l r \/ (is_dec P l /\ is_dec P r))
+  | SBoth => is_dec P l /\ is_dec P r /\ is_dec P (fst o) /\ dec_unify P l r = Some o
   end.
+
+Lemma dtype_eqb_refl : forall a, dtype_eqb a a = true.
+Proof.
+  intros [i m]. unfold dtype_eqb. cbn [d_id d_meta]. rewrite N.eqb_refl. cbn [andb].
+  induction m as [|z m IHm]; [reflexivity|]. cbn [zs_eqb]. rewrite Z.eqb_refl. exact IHm.
+Qed.
+
+Lemma dec_unify_spec : forall P l r o, dec_unify P l r = Some o ->
+  exists lp ls rp rs, dec_meta P l = Some (lp, ls) /\ dec_meta P r = Some (rp, rs) /\
+    d_meta (fst o) = [Z.min (Z.max (Z.max (lp - ls) (rp - rs) + Z.max ls rs) 1) dec128_max_precision; Z.max ls rs] /\
+    (d_id (fst o) = p_dec64 P \/ d_id (fst o) = p_dec128 P) /\
+    snd o = side_of (negb (dtype_eqb l (fst o))) (negb (dtype_eqb r (fst o))).
+Proof.
+  intros P l r o H. unfold dec_unify in H.
+  destruct (dec_meta P l) as [[lp ls]|] eqn:EL; [|discriminate].
+  destruct (dec_meta P r) as [[rp rs]|] eqn:ER; [|discriminate].
+  injection H as H. subst o. exists lp, ls, rp, rs. cbn [fst snd d_meta d_id].
+  split; [reflexivity|]. split; [reflexivity|]. split; [reflexivity|]. split; [|reflexivity].
+  destruct ((_ <=? _)%Z && _ && _); [left|right]; reflexivity.
+Qed.
+
+Lemma dec_unify_out_dec : forall P l r o, dec_unify P l r = Some o -> is_dec P l /\ is_dec P r /\ is_dec P (fst o).
+Proof.
+  intros P l r o H. destruct (dec_unify_spec P l r o H) as [lp [ls [rp [rs [EL [ER [Hm [Hid _]]]]]]]].
+  split; [eexists; exact EL|]. split; [eexists; exact ER|].
+  unfold is_dec, dec_meta. rewrite Hm.
+  destruct Hid as [Hid|Hid]; rewrite Hid, N.eqb_refl; [|rewrite orb_true_r]; eexists; reflexivity.
+Qed.
 
 Lemma unify1_unified : forall P l r o, unify1 P l r = Some o -> unified P l r o.
 Proof.
   intros P l r o H. unfold unify1 in H.
   destruct (dtype_eqb l r) eqn:EQ.
   - injection H as H. subst o. unfold unified. cbn [fst snd]. split; [reflexivity|apply dtype_eqb_eq; exact EQ].
-  - destruct (score P (d_id r) (d_id l)) as [ls|] eqn:EL; destruct (score P (d_id l) (d_id r)) as [rs|] eqn:ER;
-      cbn [opt_ge] in H.
-    + destruct (rs <=? ls); injection H as H; subst o; unfold unified, castable; cbn [fst snd]; eauto.
-    + injection H as H. subst o. unfold unified, castable. cbn [fst snd]. eauto.
-    + injection H as H. subst o. unfold unified, castable. cbn [fst snd]. eauto.
-    + discriminate.
+  - destruct (dec_unify P l r) as [x|] eqn:ED.
+    + injection H as H. subst x. destruct (dec_unify_out_dec P l r o ED) as [DL [DR DO]].
+      destruct (dec_unify_spec P l r o ED) as [lp [ls [rp [rs [_ [_ [_ [_ Hs]]]]]]]].
+      unfold unified. rewrite Hs.
+      destruct (dtype_eqb l (fst o)) eqn:E1; destruct (dtype_eqb r (fst o)) eqn:E2; cbn [negb side_of].
+      * exfalso. apply dtype_eqb_eq in E1, E2. rewrite <- E2 in E1. subst r. rewrite dtype_eqb_refl in EQ. discriminate.
+      * apply dtype_eqb_eq in E1. split; [symmetry; exact E1|right; split; assumption].
+      * apply dtype_eqb_eq in E2. split; [symmetry; exact E2|right; split; assumption].
+      * repeat split; assumption.
+    + destruct (score P (d_id r) (d_id l)) as [ls|] eqn:EL; destruct (score P (d_id l) (d_id r)) as [rs|] eqn:ER;
+        cbn [opt_ge] in H.
+      * destruct (rs <=? ls); injection H as H; subst o; unfold unified, castable; cbn [fst snd]; eauto.
+      * injection H as H. subst o. unfold unified, castable. cbn [fst snd]. eauto.
+      * injection H as H. subst o. unfold unified, castable. cbn [fst snd]. eauto.
+      * discriminate.
+Qed.
+
+(* the unified decimal type holds every value of both branch types exactly: its scale is the larger scale (no
+   rounding) and, unless the precision had to be clamped at 38, it has at least as many integer digits as either
+   side; in the clamp case the precision is 38 and the scale is still the larger one (a value with more than
+   38 - scale integer digits fails the cast at run time instead of being rounded) *)
+Theorem union_decimal_exact : forall P l r o lp ls rp rs,
+  unify1 P l r = Some o -> dec_meta P l = Some (lp, ls) -> dec_meta P r = Some (rp, rs) -> l <> r ->
+  exists po so, dec_meta P (fst o) = Some (po, so) /\ so = Z.max ls rs /\
+    ((Z.max (lp - ls) (rp - rs) + so <= dec128_max_precision)%Z ->
+       (lp - ls <= po - so)%Z /\ (rp - rs <= po - so)%Z /\ (ls <= so)%Z /\ (rs <= so)%Z) /\
+    ((dec128_max_precision < Z.max (lp - ls) (rp - rs) + so)%Z ->
+       po = dec128_max_precision /\ (ls <= so)%Z /\ (rs <= so)%Z).
+Proof.
+  intros P l r o lp ls rp rs H EL ER Hne. unfold unify1 in H.
+  destruct (dtype_eqb l r) eqn:EQ; [apply dtype_eqb_eq in EQ; contradiction|].
+  destruct (dec_unify P l r) as [x|] eqn:ED.
+  - injection H as H. subst x.
+    destruct (dec_unify_spec P l r o ED) as [lp' [ls' [rp' [rs' [EL' [ER' [Hm [Hid _]]]]]]]].
+    rewrite EL in EL'. rewrite ER in ER'. injection EL' as A1 A2. injection ER' as B1 B2. subst lp' ls' rp' rs'.
+    eexists. eexists. split.
+    + unfold dec_meta. rewrite Hm. destruct Hid as [Hid|Hid]; rewrite Hid, N.eqb_refl; [|rewrite orb_true_r]; reflexivity.
+    + unfold dec128_max_precision. split; [reflexivity|]. split; intros Hc; lia.
+  - exfalso. unfold dec_unify in ED. rewrite EL, ER in ED. discriminate.
 Qed.
 
 Lemma unify_zip_unified : forall P ls rs out,
@@ -393,7 +456,7 @@ Proof.
     unfold needs_cast in Hn. cbn [existsb] in Hn. apply orb_false_iff in Hn. destruct Hn as [Hx Hxs].
     cbn [map]. f_equal; [|apply (IH rs' xs E2); [lia|exact Hxs]].
     pose proof (unify1_unified P l r x E1) as U. unfold unified in U. unfold side_is in Hx.
-    destruct (snd x); [exact (proj1 U)|discriminate|exact (proj1 U)].
+    destruct (snd x); [exact (proj1 U)|discriminate|exact (proj1 U)|discriminate].
 Qed.
 
 Lemma zip_no_right_is_right : forall P ls rs out, unify_zip P ls rs = Some out -> List.length ls = List.length rs ->
@@ -406,12 +469,13 @@ Proof.
     unfold needs_cast in Hn. cbn [existsb] in Hn. apply orb_false_iff in Hn. destruct Hn as [Hx Hxs].
     cbn [map]. f_equal; [|apply (IH rs' xs E2); [lia|exact Hxs]].
     pose proof (unify1_unified P l r x E1) as U. unfold unified in U. unfold side_is in Hx.
-    destruct (snd x); [destruct U as [U1 U2]; congruence|exact (proj1 U)|discriminate].
+    destruct (snd x); [destruct U as [U1 U2]; congruence|exact (proj1 U)|discriminate|discriminate].
 Qed.
 
+Definition cast_ok (P : params) (f t : dtype) : Prop := castable P f t \/ (is_dec P f /\ is_dec P t).
 Lemma zip_casts_castable : forall P ls rs out, unify_zip P ls rs = Some out ->
-  (forall f t, In (f, t) (filter (fun p => negb (dtype_eqb (fst p) (snd p))) (map (fun p => (fst p, fst (snd p))) (combine ls out))) -> castable P f t) /\
-  (forall f t, In (f, t) (filter (fun p => negb (dtype_eqb (fst p) (snd p))) (map (fun p => (fst p, fst (snd p))) (combine rs out))) -> castable P f t).
+  (forall f t, In (f, t) (filter (fun p => negb (dtype_eqb (fst p) (snd p))) (map (fun p => (fst p, fst (snd p))) (combine ls out))) -> cast_ok P f t) /\
+  (forall f t, In (f, t) (filter (fun p => negb (dtype_eqb (fst p) (snd p))) (map (fun p => (fst p, fst (snd p))) (combine rs out))) -> cast_ok P f t).
 Proof.
   intros P ls. induction ls as [|l ls' IH]; intros rs out H.
   - cbn [unify_zip] in H. injection H as H. subst out. split; intros f t Hin; [contradiction|].
@@ -422,21 +486,22 @@ Proof.
       destruct (unify_zip P ls' rs') as [xs|] eqn:E2; [|discriminate]. injection H as H. subst out.
       destruct (IH rs' xs E2) as [IL IR].
       pose proof (unify1_unified P l r x E1) as U. unfold unified in U.
-      assert (Hrefl : forall a, dtype_eqb a a = true).
-      { intros [i m]. unfold dtype_eqb. cbn [d_id d_meta]. rewrite N.eqb_refl. cbn [andb].
-        induction m as [|z m IHm]; [reflexivity|]. cbn [zs_eqb]. rewrite Z.eqb_refl. exact IHm. }
       split; intros f t Hin; cbn [combine map filter fst snd] in Hin.
       * destruct (negb (dtype_eqb l (fst x))) eqn:EN.
-        -- destruct Hin as [Heq|Hin]; [|apply IL; exact Hin]. injection Heq as Hf Ht. subst f t.
-           destruct (snd x); [destruct U as [U1 _]; rewrite U1, Hrefl in EN; discriminate
-                             |destruct U as [U1 U2]; rewrite U1; exact U2
-                             |destruct U as [U1 _]; rewrite U1, Hrefl in EN; discriminate].
+        -- destruct Hin as [Heq|Hin]; [|apply IL; exact Hin]. injection Heq as Hf Ht. subst f t. unfold cast_ok.
+           destruct (snd x).
+           ++ destruct U as [U1 _]. rewrite U1, dtype_eqb_refl in EN. discriminate.
+           ++ destruct U as [U1 [U2|U2]]; rewrite U1; [left; exact U2|right; exact U2].
+           ++ destruct U as [U1 _]. rewrite U1, dtype_eqb_refl in EN. discriminate.
+           ++ destruct U as [DL [_ [DO _]]]. right. split; assumption.
         -- apply IL. exact Hin.
       * destruct (negb (dtype_eqb r (fst x))) eqn:EN.
-        -- destruct Hin as [Heq|Hin]; [|apply IR; exact Hin]. injection Heq as Hf Ht. subst f t.
-           destruct (snd x); [destruct U as [U1 U2]; rewrite U1, U2, Hrefl in EN; discriminate
-                             |destruct U as [U1 _]; rewrite U1, Hrefl in EN; discriminate
-                             |destruct U as [U1 U2]; rewrite U1; exact U2].
+        -- destruct Hin as [Heq|Hin]; [|apply IR; exact Hin]. injection Heq as Hf Ht. subst f t. unfold cast_ok.
+           destruct (snd x).
+           ++ destruct U as [U1 U2]. rewrite U1, U2, dtype_eqb_refl in EN. discriminate.
+           ++ destruct U as [U1 _]. rewrite U1, dtype_eqb_refl in EN. discriminate.
+           ++ destruct U as [U1 [U2|[U2 U3]]]; rewrite U1; [left; exact U2|right; split; assumption].
+           ++ destruct U as [_ [DR [DO _]]]. right. split; assumption.
         -- apply IR. exact Hin.
 Qed.
 
@@ -446,8 +511,8 @@ Theorem union_branches_one_type : forall P ls rs out,
   unify_cols P ls rs = Some out ->
   branch_after ls out (needs_cast SLeft out) = map fst out /\
   branch_after rs out (needs_cast SRight out) = map fst out /\
-  (forall f t, In (f, t) (casts_inserted ls out (needs_cast SLeft out)) -> castable P f t) /\
-  (forall f t, In (f, t) (casts_inserted rs out (needs_cast SRight out)) -> castable P f t).
+  (forall f t, In (f, t) (casts_inserted ls out (needs_cast SLeft out)) -> cast_ok P f t) /\
+  (forall f t, In (f, t) (casts_inserted rs out (needs_cast SRight out)) -> cast_ok P f t).
 Proof.
   intros P ls rs out H. destruct (union_arity_checked P ls rs out H) as [Hlen Hout].
   unfold unify_cols in H. destruct (Nat.eqb (List.length ls) (List.length rs)); [|discriminate].
@@ -465,7 +530,7 @@ Qed.
 (* DECIMAL(10,2) UNION DECIMAL(12,4): same id, different parameters -> one side is cast, the output is one full type *)
 Lemma union_decimal_src : on_src (fun P =>
   match unify_cols P [{| d_id := 17; d_meta := [10; 2]%Z |}] [{| d_id := 17; d_meta := [12; 4]%Z |}] with
-  | Some [(t, SRight)] => dtype_eqb t {| d_id := 17; d_meta := [10; 2]%Z |}
+  | Some [(t, SLeft)] => dtype_eqb t {| d_id := 17; d_meta := [12; 4]%Z |}
   | _ => false
   end) = true.
 Proof. vm_compute. reflexivity. Qed.
